@@ -126,6 +126,11 @@ pub struct Case {
     /// version v (4, 5 or 6) negotiated (see proto.rs).  Absent in older replay files.
     #[serde(default)]
     pub proto: Option<u8>,
+    /// API level only: the signer runs with the validator factory vlsd uses by default
+    /// (OnchainValidatorFactory around the simple validator) on a channel whose funding
+    /// transaction is confirmed on the tracker's chain
+    #[serde(default)]
+    pub onchain: bool,
 }
 
 /// Execution level of a history.  VERIF_PROTO_ONLY=1 removes the API level (sensitivity runs
@@ -141,8 +146,8 @@ pub fn proto_strat() -> BoxedStrategy<Option<u8>> {
 }
 
 pub fn case_strat(max_ops: usize, valid_weight: u32, sign_weight: u32) -> BoxedStrategy<Case> {
-    (any::<bool>(), any::<bool>(), proptest::collection::vec(op_strat(valid_weight, sign_weight), 1..max_ops), proto_strat())
-        .prop_map(|(anchors, outbound, ops, proto)| Case { anchors, outbound, ops, proto })
+    (any::<bool>(), any::<bool>(), proptest::collection::vec(op_strat(valid_weight, sign_weight), 1..max_ops), proto_strat(), any::<bool>())
+        .prop_map(|(anchors, outbound, ops, proto, onchain)| Case { anchors, outbound, ops, onchain: onchain && proto.is_none(), proto })
         .boxed()
 }
 
@@ -210,6 +215,23 @@ pub fn setup_world(anchors: bool, outbound: bool) -> Machine {
         g: Ghost::new(),
         dead: false,
     }
+}
+
+/// As `setup_world`, with the on-chain validator factory and a confirmed funding transaction.
+pub fn setup_world_onchain(anchors: bool, outbound: bool) -> Machine {
+    let mut w = World::new_onchain(crate::chainpool::regtest_cfg());
+    let mut spec = ChanSpec::basic(1);
+    spec.anchors = anchors;
+    spec.outbound = outbound;
+    let (ci, _funding) = crate::chainpool::open_confirmed(&mut w, &spec);
+    let mut stub_spec = ChanSpec::basic(2);
+    stub_spec.anchors = anchors;
+    let stub = w.new_stub(&stub_spec).ok().expect("stub");
+    let payee = PublicKey::from_secret_key(&w.secp, &SecretKey::from_slice(&[5u8; 32]).unwrap());
+    for h in 0u8..4 {
+        w.node.add_keysend(payee, phash(h), 2_000_000_000).expect("keysend");
+    }
+    Machine { w, ci, stub, g: Ghost::new(), dead: false }
 }
 
 impl Machine {
@@ -389,6 +411,7 @@ impl HistoryMachine for Machine {
 /// The machine for a case: API level, or protocol level at the case's protocol version.
 pub fn machine_for(case: &Case) -> Box<dyn HistoryMachine> {
     match case.proto {
+        None if case.onchain => Box::new(setup_world_onchain(case.anchors, case.outbound)),
         None => Box::new(setup_world(case.anchors, case.outbound)),
         Some(v) => Box::new(crate::props::proto::setup_proto(case.anchors, case.outbound, v as u32)),
     }
@@ -396,6 +419,7 @@ pub fn machine_for(case: &Case) -> Box<dyn HistoryMachine> {
 
 pub fn level_name(case: &Case) -> String {
     match case.proto {
+        None if case.onchain => "api-onchain".to_string(),
         None => "api".to_string(),
         Some(v) => format!("v{}", v),
     }
